@@ -126,7 +126,11 @@ impl DatagramState {
         }
 
         let was_empty = self.recv_buffered == 0;
-        while datagram.data.len() + self.recv_buffered > window {
+        // Empty datagrams take no space in the byte budget; charge every datagram at least one
+        // byte's worth so that a peer cannot make the queue grow without limit
+        while datagram.data.len() + self.recv_buffered > window
+            || self.incoming.len() >= window.max(1)
+        {
             debug!("dropping stale datagram");
             self.recv();
         }
